@@ -20,9 +20,13 @@ from .common import plist, frac
 THEOREMS = ['Pyiga.Props.C18.' + t for t in (
     'faithful_neg', 'faithful_add', 'faithful_sub', 'join_tucker_bases_spec', 'faithful_can_to_tucker',
     'from_tensor_order1_raises', 'asarray_idem', 'faithful_tsum', 'step_faithful', 'faithful_seq_partial', 'aca_cross',
-    'truncTrace_shape', 'truncation_budget_partial')]
+    'truncTrace_shape', 'truncation_budget_partial',
+    'squeeze_negative_axis_asCoded_wrong', 'pad_empty_axis_asCoded_raises',
+    'faithful_nway_leaf', 'faithful_pad_leaf', 'operator_add', 'operator_neg', 'operator_sub', 'operator_T',
+    'generator_getitem', 'faithful_tucker_to_can')]
 MODULES = ['Pyiga.Model.Tensor', 'Pyiga.Proofs.TensorBasic', 'Pyiga.Proofs.TensorArith', 'Pyiga.Proofs.TensorOps',
-           'Pyiga.Proofs.TensorAdd', 'Pyiga.Proofs.TensorAddSpec', 'Pyiga.Props.C18']
+           'Pyiga.Proofs.TensorAdd', 'Pyiga.Proofs.TensorAddSpec', 'Pyiga.Proofs.TensorNway', 'Pyiga.Proofs.TensorPad', 'Pyiga.Proofs.TensorOperator', 'Pyiga.Proofs.TensorGen',
+           'Pyiga.Proofs.TensorT2C', 'Pyiga.Props.C18']
 
 SL = 'N'
 
@@ -258,9 +262,6 @@ def gen_sequence(ctx, rng, order, nsteps):
                 U, B = env[b]
                 if isinstance(T, np.ndarray) and (not isinstance(U, np.ndarray) or A.shape != B.shape):
                     raise Skip()          # ndarray.__add__ (numpy broadcasting) is not pyiga code
-                mixed = {type(T), type(U)} == {tensor.CanonicalTensor, tensor.TuckerTensor}
-                if mixed and len(A.shape) == 1:
-                    raise Skip()          # known finding tucker-from-order1 (probed separately)
                 valid = (A.shape == B.shape) and not (
                     isinstance(T, (tensor.CanonicalTensor, tensor.TuckerTensor)) and isinstance(U, (tensor.TensorSum, tensor.TensorProd)))
                 req = '%s %d %d' % (op, a, b)
@@ -274,6 +275,14 @@ def gen_sequence(ctx, rng, order, nsteps):
                     nl = sum(isinstance(i, list) for i in I); ni = sum(isinstance(i, (int, np.integer)) for i in I)
                     if nl > 1 or (nl == 1 and ni > 0):
                         raise Skip()
+                    nbad = 0
+                    for k, ix in enumerate(I[:A.ndim]):
+                        try:
+                            np.arange(A.shape[k])[ix]
+                        except Exception:
+                            nbad += 1
+                    if nbad > 1:
+                        raise Skip()      # numpy's precedence among several malformed components is not pyiga code
                 if rng.integers(0, 6) == 0 and len(I) == 1:
                     Ipy = I[0]          # non-tuple form T[i]
                 else:
@@ -294,13 +303,13 @@ def gen_sequence(ctx, rng, order, nsteps):
                     ax = None
                 elif r < 0.85 and ones:
                     m = int(rng.integers(1, len(ones) + 1))
-                    ax = tuple(int(x) for x in rng.permutation(ones)[:m])
+                    ax = tuple(int(x) - (d if rng.integers(0, 3) == 0 else 0) for x in rng.permutation(ones)[:m])
                     if len(ax) == 1 and rng.integers(0, 2):
                         ax = ax[0]
                 elif r < 0.95:
-                    ax = int(rng.integers(0, d))
+                    ax = int(rng.integers(-d, d))
                 else:
-                    ax = d + int(rng.integers(0, 2))
+                    ax = int(rng.choice([d, d + 1, -d - 1]))
                 axl = None if ax is None else ([ax] if np.isscalar(ax) else list(ax))
                 req = 'squeeze %d %s' % (a, 'N' if axl is None else plist(axl))
                 call = lambda: T.squeeze(axis=ax)
@@ -341,8 +350,6 @@ def gen_sequence(ctx, rng, order, nsteps):
                 valid = len(pw) == d
             elif op == 'c2t':
                 a = pick(); T, A = env[a]
-                if has_order1_can(T):
-                    raise Skip()
                 req = 'c2t %d' % a
                 call = lambda: tensor.TuckerTensor.from_tensor(T); want = lambda: A
             elif op == 't2c':
@@ -385,8 +392,6 @@ def gen_sequence(ctx, rng, order, nsteps):
                 want = lambda: tensor.array_outer(*[env[r][1] for r in refs])
             elif op == 'zeros':
                 which = str(rng.choice(['czeros', 'cones', 'tzeros', 'tones']))
-                if which[0] == 't' and len(shape) == 1:
-                    raise Skip()        # known finding tucker-from-order1
                 req = '%s %s' % (which, plist(shape))
                 cls = tensor.CanonicalTensor if which[0] == 'c' else tensor.TuckerTensor
                 call = (lambda: cls.zeros(shape)) if which.endswith('zeros') else (lambda: cls.ones(shape))
@@ -425,7 +430,7 @@ def gen_sequence(ctx, rng, order, nsteps):
         if fail:
             key = op
             if op == 'pad' and contains_full(T) and err is not None:
-                key = 'pad-empty-axis'      # known finding: sparse mode product along an empty axis of an ndarray
+                key = 'pad-empty-axis'      # repaired finding (5dd70f0): sparse mode product along an empty axis of an ndarray
             fails.append((len(ops) - 1, key, fail))
             break
         if err is None and is_tensor_obj(R):
@@ -446,6 +451,8 @@ def run(ctx):
         ctx.leanchecker(MODULES)
     quick = ctx.tier == 'quick'
     rng = ctx.rng
+    import time as _time
+    _t_own = _time.time()
     np.random.seed(ctx.seed)
     ctx.trusted += [
         'numpy tensordot/pad/hstack/fancy indexing, Python range/slice semantics (CPython PySlice_AdjustIndices): modelled by their documented behaviour',
@@ -781,6 +788,7 @@ def run(ctx):
 
     known_probes(ctx)
     numeric_checks(ctx)
+    ctx.extra['own_compute_s (after build/audit; excludes waiting for the shared lake lock)'] = round(_time.time() - _t_own, 1)
     ctx.assumptions += [
         'index lists are per-axis (orthogonal) selections as _normalize_indices defines them; with >=2 lists numpy pairs them instead (documented difference, not reported)',
         'ndarray operands inside TensorSum/TensorProd are indexed without int+list mixtures (numpy advanced-indexing axis reordering not modelled)',
@@ -789,7 +797,19 @@ def run(ctx):
 
 
 def known_probes(ctx):
-    """dedicated replays of the recorded findings (see /verif/fixes, known_findings.d/C18.json)"""
+    _known_probes(ctx)
+    from pyiga import tensor
+    try:
+        R = tensor.pad(np.zeros((0, 2)), [(0, 1), (1, 0)])
+        if np.asarray(R).shape != (1, 3) or np.any(np.asarray(R) != 0):
+            ctx.violation('pad-empty-axis', 'tensor.pad of an ndarray with an empty axis gives a wrong tensor', {'shape': [0, 2]}, True)
+    except Exception as ex:
+        ctx.violation('pad-empty-axis', 'tensor.pad(np.zeros((0,2)), [(0,1),(1,0)]) raises %s' % type(ex).__name__, {'shape': [0, 2]}, True)
+
+
+def _known_probes(ctx):
+    """dedicated replays of the recorded (now repaired) findings (see /verif/fixes, known_findings.d/C18.json):
+    they pass silently and report a VIOLATION under the old key if a defect returns"""
     from pyiga import tensor
     # 1. CanonicalTensor.squeeze with a negative axis
     T = tensor.CanonicalTensor((np.arange(1, 7.).reshape(3, 2), np.array([[2., 3.]])))
